@@ -323,7 +323,7 @@ pub fn check_corpus_error(info: &mut CaseInfo, id: &str) -> CheckResult {
 
 const BLOCK: u64 = 6000;
 fn cases(tier: Tier) -> u64 {
-    tier.pick(150_000, 4_500_000)
+    tier.pick(600_000, 4_500_000)
 }
 
 pub fn case_json(t: &[u8], l: &[u8], op: u8, site: u16) -> Value {
